@@ -92,7 +92,7 @@ fn cut_load_owned_lazyvalue<'de, R: crate::reader::Reader<'de>>(
 /// with the value (CBMC's dereference / double-free checks), and a clone taken afterwards
 /// carries an equal decoding.
 #[kani::proof]
-#[kani::unwind(6)]
+#[kani::unwind(2)]
 #[kani::stub(crate::parser::Parser::load_owned_lazyvalue, cut_load_owned_lazyvalue)]
 #[kani::stub(crate::reader::Read::from, cut_read_from)]
 fn e_owned_load() {
@@ -124,12 +124,43 @@ fn e_owned_load() {
     unsafe { INTERFERE = None };
     assert_eq!(*lr.parsed.get_mut() as *const Parsed, p1);
     // a clone taken now carries an equal, independent decoding
-    match lr.clone_lazyraw() {
-        Err(Parsed::Bool(b)) => assert_eq!(b, mine1),
+    let c = lr.clone_lazyraw();
+    match &c {
+        Err(Parsed::Bool(b)) => assert_eq!(*b, mine1),
         _ => panic!("clone of a loaded LazyRaw must carry the decoding"),
     }
+    core::mem::forget(c);
     drop(lr);
     kani::cover!(other);
     kani::cover!(!other);
     kani::cover!(unsafe { ATOMIC_STEPS } >= 3);
+}
+
+/// C01/C13/C16-adjacent E-owned-parse: a shared read that fills the cache followed by a
+/// mutable access that takes the cached decoding out (`LazyRaw::parse`) and the final drop:
+/// the decoding is handed over exactly once (CBMC's double-free / use-after-free checks).
+#[kani::proof]
+#[kani::unwind(2)]
+#[kani::stub(crate::parser::Parser::load_owned_lazyvalue, cut_load_owned_lazyvalue)]
+#[kani::stub(crate::reader::Read::from, cut_read_from)]
+fn e_owned_load_then_parse() {
+    unsafe { INTERFERE = None };
+    let mut lr = LazyRaw {
+        raw: FastStr::from_static_str("[1]"),
+        parsed: AtomicPtr::new(std::ptr::null_mut()),
+    };
+    let filled: bool = kani::any();
+    if filled {
+        let r = lr.load();
+        assert!(r.is_ok());
+        core::mem::forget(r);
+    }
+    let taken = lr.parse();
+    assert!(matches!(taken.as_ref().ok().unwrap(), Parsed::Bool(true)));
+    // the cache no longer owns the decoding
+    assert!((*lr.parsed.get_mut()).is_null());
+    drop(taken);
+    drop(lr);
+    kani::cover!(filled);
+    kani::cover!(!filled);
 }
